@@ -35,7 +35,7 @@ type packNode struct {
 }
 
 // packTree: n symbolic nodes below /w/s. Each node picks its parent among the directories made so
-// far, has a 1-byte free name, a kind (dir / file / link), 9 free permission bits, a symbolic
+// far, has a 1-byte free name, a kind (dir / file / link), 12 free mode bits (permissions, setuid, setgid, sticky), a symbolic
 // mtime and - for links - a target of 0..nLink free bytes.
 func packTree(n, nLink int) []packNode {
 	dirs := []string{packSrc}
@@ -64,7 +64,7 @@ func packTree(n, nLink int) []packNode {
 		for _, o := range nodes {
 			verif.Assume(o.path != p)
 		}
-		perm := uint32(verif.Int("perm")) & 0777
+		perm := uint32(verif.Int("perm")) & 07777 // nine permission bits plus setuid / setgid / sticky
 		mtime := 1000 + int64(verif.Byte("mtime")&0x3f)
 		kind := verif.Choose("kind", 3)
 		switch kind {
@@ -140,6 +140,11 @@ func HarnessPack() {
 	verif.ObserveBool("ok", err == nil)
 	if err != nil {
 		verif.Reach("pack-error")
+		if p.dereference && !p.applyTerraformIgnore && verif.Param("linkMenu", 0) == 1 {
+			// every link of these trees leads - through further links outside the tree - to an
+			// existing file or directory: with dereferencing there is nothing to refuse
+			verif.Assert("C05-dereferenceable-links-pack", false)
+		}
 		// C05: without dereferencing, an out-of-tree link makes Pack fail with an illegal-slug error;
 		// any other failure needs a reason visible in the tree (dangling dereference etc.)
 		if !p.dereference && len(p.allowSymlinkTargets) == 0 {
@@ -181,6 +186,52 @@ func HarnessPack() {
 		verif.Reach("entries-written")
 	}
 
+	// ---- C05 (2): with dereferencing, a link that leaves the tree is replaced by a copy of what it
+	// physically points to (followed the way the operating system follows it, through any further
+	// links): a file by its content, a directory by its files
+	if p.dereference && !p.applyTerraformIgnore && len(p.allowSymlinkTargets) == 0 {
+		for _, n := range nodes {
+			if n.kind != envLink {
+				continue
+			}
+			rel := n.path[len(packSrc)+1:]
+			if refHasPrefix(refLinkTarget(packSrc, rel, envReadlink(n.path)), refPush(nil, packSrc)) {
+				continue // stays inside (lexically, from its own directory): stored as a link
+			}
+			rp := envRealPath(n.path)
+			if rp == "" {
+				continue
+			}
+			switch envLstatKind(rp) {
+			case envFile:
+				verif.Reach("deref-file")
+				found := false
+				for _, e := range written {
+					if e.Name == rel {
+						found = true
+						verif.Assert("C05-dereferenced-link-is-a-regular-entry", e.Typeflag == tar.TypeReg)
+						verif.Assert("C05-dereferenced-file-has-the-content-it-points-to", e.Body == packFileData(rp))
+					}
+				}
+				verif.Assert("C05-dereferenced-link-is-shipped", found)
+			case envDir:
+				verif.Reach("deref-dir")
+				for _, c := range envSnapshot(rp) {
+					if c.Kind != envFile {
+						continue
+					}
+					found := false
+					for _, e := range written {
+						if e.Name == rel+"/"+c.Path {
+							found = true
+							verif.Assert("C05-dereferenced-directory-file-has-its-content", e.Typeflag == tar.TypeReg && e.Body == c.Data)
+						}
+					}
+					verif.Assert("C05-dereferenced-directory-file-is-shipped", found)
+				}
+			}
+		}
+	}
 	// ---- C05 (3): every relative link entry, read at its own position, points inside the archive root
 	for _, e := range written {
 		if e.Typeflag == tar.TypeSymlink {
@@ -244,6 +295,26 @@ func HarnessPack() {
 			verif.Assert("C02-same-link-target", a.Target == b.Target)
 		}
 	}
+}
+
+// packFileData: content of the regular file at an absolute physical path.
+func packFileData(abs string) string {
+	dir, base := abs, ""
+	for k := len(abs) - 1; k >= 0; k-- {
+		if abs[k] == '/' {
+			dir, base = abs[:k], abs[k+1:]
+			break
+		}
+	}
+	if dir == "" {
+		dir = "/"
+	}
+	for _, c := range envSnapshot(dir) {
+		if c.Path == base && c.Kind == envFile {
+			return c.Data
+		}
+	}
+	return "\x00<no such file>"
 }
 
 // packDerefCycle: some link, followed physically, ends at a directory that contains the link
